@@ -33,6 +33,7 @@ BOUNDS = {
 }
 
 INT_AB = [7, 8]
+LONG_PATTERNS = [[0] * 64, [0] * 40 + [1] * 24, [0, 1] * 32, [0] * 63 + [1], [2] + [0] * 63, [0] * 300 + [1] * 2 + [2] * 200]
 
 
 def _mapped(pattern, base=10):
@@ -48,7 +49,23 @@ def cases(tier, seed):
             for n in range(1, nmax + 1):
                 for w in U.words(alpha, n):
                     yield {"k": "encode", "dtype": d, "a": w}
-    # (2a) slices
+    for d in b["dtypes"]:
+        for name, alpha in U.alphabets(d, tier):
+            for p in LONG_PATTERNS:
+                yield {"k": "encode", "dtype": d, "a": [alpha[i % len(alpha)] for i in p]}
+    # (2a) slices inside the array (those whose bounds need clamping come last in the exhaustive part)
+    for c in _slice_cases(b):
+        if not U.slice_out_of_range(len(c["a"]), c["s"]):
+            yield c
+    yield from _other_cases(b, tier)
+    for c in _slice_cases(b):
+        if U.slice_out_of_range(len(c["a"]), c["s"]):
+            yield c
+    if b["random"]:
+        yield from _random_cases(b, tier, seed)
+
+
+def _slice_cases(b):
     for n in range(1, b["slice_full_max_len"] + 1):
         for w in U.words(INT_AB, n):
             for s in U.all_slices(n):
@@ -62,6 +79,9 @@ def cases(tier, seed):
             for w in U.words(alpha[:2] if n == 3 else alpha, n):
                 for s in U.all_slices(n):
                     yield {"k": "slice", "dtype": d, "a": w, "s": s}
+
+
+def _other_cases(b, tier):
     # (2b) ufuncs on two run-length operands
     for n in range(1, b["pair_max_len"] + 1):
         for x, y in U.binary_pairs(n, INT_AB, [1, 2]):
@@ -104,33 +124,34 @@ def cases(tier, seed):
     for x in ([float("nan")], [0.0, float("nan")], [float("nan"), float("nan"), 1.0]):
         for y in ([float("nan")], [-0.0], [1.0, 1.0]):
             yield {"k": "concat", "parts": [{"dtype": "float64", "a": x}, {"dtype": "float32", "a": y}]}
-    # random part
-    if b["random"]:
-        rng = np.random.default_rng(seed)
-        for i in range(b["random"]):
-            d = b["dtypes"][int(rng.integers(0, len(b["dtypes"])))]
-            alphas = U.alphabets(d, tier)
-            alpha = alphas[int(rng.integers(0, len(alphas)))][1]
-            w = _random_runs(rng, alpha, int(rng.integers(1, 61)))
-            kind = int(rng.integers(0, 4))
-            if kind == 0:
-                yield {"k": "encode", "dtype": d, "a": w}
-            elif kind == 1:
-                n = len(w)
 
-                def rb():
-                    return None if rng.random() < 0.25 else int(rng.integers(-n - 3, n + 4))
-                st = [None, 1, -1, 2, -2, 3, -3, 4, -5, 7][int(rng.integers(0, 10))]
-                yield {"k": "slice", "dtype": d, "a": w, "s": [rb(), rb(), st]}
-            elif kind == 2:
-                d2 = b["dtypes"][int(rng.integers(0, len(b["dtypes"])))]
-                alpha2 = U.alphabets(d2, tier)[0][1]
-                w2 = _random_runs(rng, alpha2, len(w))
-                us = U.usable_ufuncs2(d, d2)
-                yield {"k": "ufunc2", "dtype": d, "a": w, "dtype2": d2, "b": w2, "u": us[int(rng.integers(0, len(us)))]}
-            else:
-                w2 = _random_runs(rng, alpha, int(rng.integers(1, 30)))
-                yield {"k": "concat", "parts": [{"dtype": d, "a": w}, {"dtype": d, "a": w2}]}
+
+def _random_cases(b, tier, seed):
+    rng = np.random.default_rng(seed)
+    for i in range(b["random"]):
+        d = b["dtypes"][int(rng.integers(0, len(b["dtypes"])))]
+        alphas = U.alphabets(d, tier)
+        alpha = alphas[int(rng.integers(0, len(alphas)))][1]
+        w = _random_runs(rng, alpha, int(rng.integers(1, 61)))
+        kind = int(rng.integers(0, 4))
+        if kind == 0:
+            yield {"k": "encode", "dtype": d, "a": w}
+        elif kind == 1:
+            n = len(w)
+
+            def rb():
+                return None if rng.random() < 0.25 else int(rng.integers(-n - 3, n + 4))
+            st = [None, 1, -1, 2, -2, 3, -3, 4, -5, 7][int(rng.integers(0, 10))]
+            yield {"k": "slice", "dtype": d, "a": w, "s": [rb(), rb(), st]}
+        elif kind == 2:
+            d2 = b["dtypes"][int(rng.integers(0, len(b["dtypes"])))]
+            alpha2 = U.alphabets(d2, tier)[0][1]
+            w2 = _random_runs(rng, alpha2, len(w))
+            us = U.usable_ufuncs2(d, d2)
+            yield {"k": "ufunc2", "dtype": d, "a": w, "dtype2": d2, "b": w2, "u": us[int(rng.integers(0, len(us)))]}
+        else:
+            w2 = _random_runs(rng, alpha, int(rng.integers(1, 30)))
+            yield {"k": "concat", "parts": [{"dtype": d, "a": w}, {"dtype": d, "a": w2}]}
 
 
 def _random_runs(rng, alpha, n):
